@@ -1,6 +1,6 @@
 (* Props/C04.v — property theorems only.  C04 (cut-out part): what remove_cutout keeps, for ANY classifier. *)
-From Coq Require Import ZArith QArith List.
-From GHE Require Import Base.QUtil gen.Src Model.Polygon Proof.PolygonP.
+From Coq Require Import ZArith QArith List Sorting.Sorted.
+From GHE Require Import Base.QUtil gen.Src Model.Polygon Proof.PolygonP Proof.LandP.
 Import ListNotations.
 
 (* keeping the property: a grid point is kept IFF it is inside some outline, or on the contour of one when contours are kept *)
@@ -20,3 +20,30 @@ Print Assumptions C04_remove_nogo.
 Theorem C04_kept_is_filtered_grid : forall cls coords bs ri keep, exists f, remove_cutout cls coords bs ri keep = filter f coords.
 Proof. exact cutout_sublist. Qed.
 Print Assumptions C04_kept_is_filtered_grid.
+
+(* ---- the whole of polygonal_land_constraint (Model/Polygon.land_constraint: compared with the implementation on every run), for ANY
+   classifier: grid from the regenerated bi_rectangle_nested, both cut-outs, empty fields dropped, stable re-ordering by size ---- *)
+
+(* every borehole of every candidate field is a grid point inside (or on the kept contour of) some outline, inside no no-go zone and
+   on the contour of none (contours of no-go zones are not kept: kc1 = false in the code's default) *)
+Theorem C04_every_borehole_placed : forall cls outlines nogo kc0 kc1 bmin bx by_ dom f c,
+  In dom (land_constraint cls bmin bx by_ outlines nogo kc0 kc1) -> In f dom -> In c f ->
+  on_property cls outlines kc0 c /\ off_nogo cls nogo kc1 c /\
+  exists gd g, In gd (grids outlines bmin bx by_) /\ In g gd /\ In c g.
+Proof. exact land_every_borehole_placed. Qed.
+Print Assumptions C04_every_borehole_placed.
+
+(* conversely, no placeable grid borehole is dropped: it is in a candidate field of the list made from its grid list, a sub-field of its grid field *)
+Theorem C04_no_placeable_borehole_dropped : forall cls outlines nogo kc0 kc1 bmin bx by_ gd g c,
+  In gd (grids outlines bmin bx by_) -> In g gd -> In c g -> on_property cls outlines kc0 c -> off_nogo cls nogo kc1 c ->
+  exists dom f, In dom (land_constraint cls bmin bx by_ outlines nogo kc0 kc1) /\ In f dom /\ In c f /\ incl f g.
+Proof. exact land_no_placeable_borehole_dropped. Qed.
+Print Assumptions C04_no_placeable_borehole_dropped.
+
+(* each candidate list is ordered by non-decreasing borehole count (and holds no empty field) *)
+Theorem C04_lists_ordered_by_count : forall cls outlines nogo kc0 kc1 bmin bx by_ dom,
+  In dom (land_constraint cls bmin bx by_ outlines nogo kc0 kc1) ->
+  Sorted le_len dom /\ (forall f, In f dom -> f <> []) /\
+  forall i j, (i <= j < length dom)%nat -> (length (nth i dom []) <= length (nth j dom []))%nat.
+Proof. exact land_lists_ordered. Qed.
+Print Assumptions C04_lists_ordered_by_count.
